@@ -380,7 +380,11 @@ func runC13(c *Ctx) (int, error) {
 			gres, gmsg := "", ""
 			if rres == "nil" {
 				gres, gmsg = guarded(20*time.Second, func() error {
-					return f.Generate(&bytes.Buffer{}, bebop.GenerateSettings{PackageName: "x", ImportGenerationMode: bebop.ImportGenerationModeCombined})
+					mode := bebop.ImportGenerationModeCombined
+					if strings.Contains(x.Site, "separate import mode") {
+						mode = bebop.ImportGenerationModeSeparate
+					}
+					return f.Generate(&bytes.Buffer{}, bebop.GenerateSettings{PackageName: "x", ImportGenerationMode: mode})
 				})
 			}
 			crash := ""
